@@ -39,6 +39,12 @@ func (wu *WindowUpdate) Deserialize(fr *FrameHeader) error {
 		return ErrMissingBytes
 	}
 
+	if len(fr.payload) > 4 {
+		// https://httpwg.org/specs/rfc7540.html#rfc.section.6.9
+		wu.increment = 0
+		return NewGoAwayError(FrameSizeError, "WINDOW_UPDATE frame payload is not 4 octets")
+	}
+
 	wu.increment = int(http2utils.BytesToUint32(fr.payload) & (1<<31 - 1))
 
 	return nil
